@@ -42,26 +42,82 @@ def re_sizelike_prefix():
 
 def h_prepare_args_bytes(partition):
     """one caller-supplied string argument.
-    partition 'plain'   : no special byte, not size-like      -> must be the quoted form of the value
-              'special' : contains " \\ CR LF or NUL           -> must be a well-formed quoted string or literal of it
-              'sizelike': looks like {n} / {n+}               -> must still be sent as a string of that value
+    partition 'plain'    : no special byte, not size-like   -> must be the quoted form of the value
+              'unsendable': contains CR, LF or NUL          -> cannot be a quoted string: refused with Error (or sent as a literal)
+              'sizelike' : looks like {n} / {n+}            -> must still be sent as a string of that value
+    (values with quote / backslash: h_prepare_args_escaped, per shape)
     """
     c = new_client()
     a = sym_bytes("arg")
     if partition == "plain":
         assume(in_re(a, re_safe_only()))
         assume(neg(in_re(a, re_sizelike_prefix())))
-    elif partition == "special":
-        assume(neg(in_re(a, re_safe_only())))
+    elif partition == "unsendable":
+        assume(in_re(a, re_contains_crlfnul()))
         assume(neg(in_re(a, re_sizelike_prefix())))
     else:
         assume(in_re(a, re_sizelike_prefix()))
-    out = c._Client__prepare_args([a])
+    kind = "return"
+    out = None
+    try:
+        out = c._Client__prepare_args([a])
+    except managesieve.Error:
+        kind = "Error"
+    if partition == "unsendable" and kind == "Error":
+        prove(True, "W1.unsendable-value-is-refused-before-anything-is-written")
+        return
+    prove(kind == "return", "W1.encodable-value-is-not-refused")
+    if kind != "return":
+        return
     prove(len(out) == 1, "W1.one-output-per-argument")
     o = out[0]
     is_quoted_of_a = both(in_re(o, re_quoted()), o == b'"' + a + b'"', in_re(a, re_safe_only()))
     is_literal_of_a = o == b"{" + int_to_bytes(len(a)) + b"+}" + CRLF + a
     prove(either(is_quoted_of_a, is_literal_of_a), "W1.string-argument-is-wellformed-and-decodes-to-the-value")
+
+
+ESCAPE_SHAPES = [("s", '"', "s"), ("s", "\\", "s"), ('"',), ("\\",), ("s", "\\", '"', "s"), ('"', "s", '"'), ("s", '"', "s", "\\"),
+                 ("\\", "\\"), ('"', '"', "s")]
+
+
+def h_prepare_args_escaped(shape):
+    """a value with double quotes / backslashes at the places given by `shape` ('s' = any run of safe bytes, symbolic): the
+    output is the RFC 5804 quoted string of the value -- DQUOTE, every quote and backslash preceded by a backslash, DQUOTE"""
+    c = new_client()
+    a = b""
+    rfc = b""
+    for i in range(len(shape)):
+        if shape[i] == "s":
+            piece = sym_bytes("run%d" % i)
+            assume(in_re(piece, re_safe_only()))
+            a = a + piece
+            rfc = rfc + piece
+        else:
+            ch = shape[i].encode("ascii")
+            a = a + ch
+            rfc = rfc + b"\\" + ch
+    assume(neg(in_re(a, re_sizelike_prefix())))
+    kind = "return"
+    out = None
+    try:
+        out = c._Client__prepare_args([a])
+    except managesieve.Error:
+        kind = "Error"
+    prove(kind == "return", "W1.encodable-value-is-not-refused")
+    if kind != "return":
+        return
+    prove(len(out) == 1, "W1.one-output-per-argument")
+    o = out[0]
+    is_quoted = both(in_re(o, re_quoted()), o == b'"' + rfc + b'"')
+    is_literal = o == b"{" + int_to_bytes(len(a)) + b"+}" + CRLF + a
+    prove(either(is_quoted, is_literal), "W1.quotes-and-backslashes-are-escaped")
+
+
+@native
+def re_contains_crlfnul():
+    anyb = z3.Star(z3.Range(strval("\x00"), strval("\xff")))
+    bad = z3.Union(z3.Re(strval("\r")), z3.Re(strval("\n")), z3.Re(strval("\x00")))
+    return z3.Concat(anyb, bad, anyb)
 
 
 @native
@@ -156,6 +212,9 @@ def h_call_site(mname):
         pass
     except UnicodeDecodeError:
         pass
+    if G.get("refused", False):
+        prove(len(G.get("log", [])) == 0, "W4.refused-argument-nothing-written")
+        return
     log = G["log"]
     prove(len(log) == 1 and log[0][1] == SCRIPT_METHODS[mname], "W4.one-command-of-the-intended-verb")
     sent = log[0][2]
@@ -176,3 +235,26 @@ def h_call_site(mname):
         prove(len(sent) == 2 and sent[0] == args[0].encode("utf-8") and sent[1] == args[1].encode("utf-8"), "W4.arguments")
     else:
         prove(False, "W4.unknown-operation-has-no-wire-spec")
+
+
+def h_send_command_unsendable():
+    """__send_command with a string argument that cannot be written as a quoted string: Error, and nothing at all is written
+    or read (the refusal clause of the contract its callers use)"""
+    c = new_client()
+    c.sock = FakeSock(1, False)
+    G = ghost()
+    name = sym_str("name")
+    good = sym_bytes("a0")
+    bad = sym_bytes("a1")
+    assume(in_re(good, re_safe_only()))
+    assume(neg(in_re(good, re_sizelike_prefix())))
+    assume(in_re(bad, re_contains_crlfnul()))
+    assume(neg(in_re(bad, re_sizelike_prefix())))
+    kind = None
+    try:
+        c._Client__send_command(name, [good, bad])
+        kind = "return"
+    except managesieve.Error:
+        kind = "Error"
+    prove(kind == "Error", "W3.unsendable-argument-raises-Error")
+    prove(len(G["out"]) == 0 and G.get("reads", 0) == 0, "W3.refusal-happens-before-anything-is-written-or-read")
